@@ -257,6 +257,16 @@ def bytes_length(ctx, P, rule="BYTES-LENGTH", only=None):
                 if fn.name in STRLEN_OK:
                     ctx.ob(rule, "%s|%s" % (fn.name, nm), True, tu.loc(c), "exception: " + STRLEN_OK[fn.name])
                     continue
+                if nm == "strlen":
+                    # the embedded-NUL test: strlen compared (== / !=) with the size the object itself reported; the length in use
+                    # is still the object's, strlen only detects that a C-string reader would stop early
+                    fsrc = " ".join(tu.src(fn.body).split())
+                    sizes = set(re.findall(r"(?:PyUnicode_AsUTF8AndSize|PyBytes_AsStringAndSize)\([^;]*?&\s*(\w+)\s*\)", fsrc))
+                    call_txt = re.escape(" ".join(tu.src(c).split()))
+                    if any(re.search(call_txt + r"\s*[!=]=\s*(\(\s*size_t\s*\)\s*)?%s\b" % v, fsrc) or
+                           re.search(r"\b%s\s*[!=]=\s*(\(\s*\w+\s*\)\s*)?" % v + call_txt, fsrc) for v in sizes):
+                        ctx.ob(rule, "%s|%s" % (fn.name, nm), True, tu.loc(c), "strlen only compared with the size taken from the object (embedded-NUL test)")
+                        continue
                 bad += 1
                 ctx.ob(rule, "%s|%s" % (fn.name, nm), False, tu.loc(c),
                        "%s used on Python-supplied data: a length computed this way truncates at the first NUL byte" % nm)
